@@ -17,9 +17,16 @@ arbitrary quantities (`Quantity.ConvertScalarValue` with its same-unit-string sh
 registrations `AddCategory(category, quantity_type, override=…)` / `AddUnit(…, "%f / k", "%f * k",
 default_category)` with `_ForgetMemoizedResults` (both memo tables emptied by every successful
 registration, untouched by a rejected one).
+
+Third part: sums and differences of DERIVED operands (`sumq`) and `Quantity.__eq__` of two operands
+(`eqq`): `_DoOperationWithSameQuantity` on arbitrary quantities is engine Alg's `Alg.opSame` (the
+`==` shortcut, `_MatchQuantities`, the two copies, the comparison of the joined composing units),
+`Quantity.__eq__` is `Alg.Quantity.eqv`.  Neither reads nor writes the verdict table or the
+quantity cache of the session: the step returns the state it was given.
 -/
 import Barril.Model.Conv
 import Barril.Model.StrRender
+import Barril.Model.Alg
 
 namespace Barril.Fail
 open Barril
@@ -446,12 +453,25 @@ inductive XOp
   /-- ordering of two scalars whose quantities are obtained from their composing maps -/
   | cmpq (op : CmpOp) (a b : List Ent) (x y : Rat)
   | reg (r : RegOp)
+  /-- `X + Y` / `X - Y` of two values (Scalars, or Arrays element by element) whose quantities are arbitrary,
+  in particular derived: `UnitDatabase.Sum` / `Subtract` → `_DoOperationWithSameQuantity` -/
+  | sumq (op : Alg.SameOp) (a b : Alg.Quantity) (x y : Rat)
+  /-- `X.GetQuantity() == Y.GetQuantity()` (`Quantity.__eq__`) -/
+  | eqq (a b : Alg.Quantity)
 deriving Repr
 
 inductive XOut
   | plain (o : FOut)
   | quant (q : Quant)
+  /-- the quantity and the value of a sum or difference -/
+  | sum (q : Alg.Quantity) (x : Rat)
 deriving DecidableEq, Repr
+
+/-- the answer of `sumq`: `Alg.opSame` over the registry as it is at this point of the session -/
+def sumAnswer (db : Db) (op : Alg.SameOp) (a b : Alg.Quantity) (x y : Rat) : Except ErrKind XOut :=
+  match Alg.opSame db op a b x y with
+  | .ok (q, z) => .ok (.sum q z)
+  | .error e => .error e
 
 def exMap {α β : Type} (f : α → β) : Except ErrKind α → Except ErrKind β
   | .ok a => .ok (f a)
@@ -474,6 +494,8 @@ def xstep (st : XState) : XOp → XState × Except ErrKind XOut
     match applyReg st.db r with
     | .ok db' => (XState.fresh db', .ok (.plain .unit))
     | .error e => (st, .error e)
+  | .sumq op a b x y => (st, sumAnswer st.db op a b x y)
+  | .eqq a b => (st, .ok (.plain (.bool (a.eqv b))))
 
 def xrun (st : XState) : List XOp → XState
   | [] => st
